@@ -118,6 +118,17 @@ func c05Shapes(c *chk.Ctx, rng interface{ Intn(int) int }) []*spec.Spec {
 			out = append(out, s)
 		}
 	}
+	// a process without any port (a helper that prepares a directory, fetches something) that takes longer than the
+	// branches that end in the sink: Run returns when it is done, too
+	for _, n := range []int{1, 3} {
+		for _, ms := range []string{"350", "40"} {
+			s := mk(fmt.Sprintf("portlessslow%d_%s", n, ms), n)
+			s.Procs = append(s.Procs, &spec.Proc{Name: "helper", Kind: []string{spec.KCmd, spec.KGoFunc}[n%2], Cmd: spec.BuildCmd("helper", nil, nil, nil, nil, map[string]string{"sleep": ms, "extra": "helper.done"})})
+			s.Procs = append(s.Procs, &spec.Proc{Name: "other", Kind: spec.KCmd, Cmd: spec.BuildCmd("other", in, o1, nil, nil, map[string]string{"sleep": "10"})})
+			s.Conns = append(s.Conns, &spec.Conn{From: "src.out", To: "other.in"})
+			out = append(out, s)
+		}
+	}
 	// out-port-less process downstream of everything (the usual "last process" shape)
 	{
 		s := mk("leaflast", 4)
@@ -256,7 +267,7 @@ func c05Shapes(c *chk.Ctx, rng interface{ Intn(int) int }) []*spec.Spec {
 func c05(args []string) {
 	c := chk.New("C05", "exploration", args)
 	c.Build(false)
-	c.Rule("generated non-streaming graphs (C04 generator incl. processes without out-ports, slow leaves; in every third run all commands print 300 kB to stdout/stderr) plus directed shapes for the driver logic (independent leaves, out-port-less process beside sink-terminated branches, RunTo on an out-port-less target, RunToRegex with several patterns and with one pattern matching two processes, issue-#81 diamond with more tasks than buffer slots), plus close storms: command-free fan-ins of 2-8 one-file sources into one in-port, built and run 1500-3000 times inside one child process so that the upstreams close their connections at the same moment thousands of times (Run must return each time, every item must pass); oracle = the subject's own snapshot at the instant Run returns (listing, live children, monotonic stamp) vs. trace and reference, plus structural hang classification; history 'complete run, an intermediate output removed, run again' through a Concatenator (with and without GroupByTag): Run returns only after the recomputed, slow task is done; history 'run killed inside a task's finalization, run again without cleanup': if that Run returns, no temp directory exists and every file is final; further directed shapes: a dependent globber behind several slow tasks, RunTo / RunToProcs where a parameter source or a file source feeds one process inside and one outside the run set with more items than buffer slots. distinct_nontrivial = distinct (graph shape, configuration, interleaving signature) of returned runs with >= 2 tasks")
+	c.Rule("generated non-streaming graphs (C04 generator incl. processes without out-ports, slow leaves; in every third run all commands print 300 kB to stdout/stderr) plus directed shapes for the driver logic (independent leaves, out-port-less process beside sink-terminated branches, a slow process without any port beside them, RunTo on an out-port-less target, RunToRegex with several patterns and with one pattern matching two processes, issue-#81 diamond with more tasks than buffer slots), plus close storms: command-free fan-ins of 2-8 one-file sources into one in-port, built and run 1500-3000 times inside one child process so that the upstreams close their connections at the same moment thousands of times (Run must return each time, every item must pass); oracle = the subject's own snapshot at the instant Run returns (listing, live children, monotonic stamp) vs. trace and reference, plus structural hang classification; history 'complete run, an intermediate output removed, run again' through a Concatenator (with and without GroupByTag): Run returns only after the recomputed, slow task is done; history 'run killed inside a task's finalization, run again without cleanup': if that Run returns, no temp directory exists and every file is final; further directed shapes: a dependent globber behind several slow tasks, RunTo / RunToProcs where a parameter source or a file source feeds one process inside and one outside the run set with more items than buffer slots. distinct_nontrivial = distinct (graph shape, configuration, interleaving signature) of returned runs with >= 2 tasks")
 	c.Assume("SCIPIPE_BUFSIZE >= 1", "two processes without out-ports are refused by the library up front; that refusal (exit != 0, no command executed) is accepted", "hang verdicts only from the structural classifier (Go runtime deadlock report or all goroutines blocked), never from elapsed time")
 	rng := c.Rand("c05")
 	type job struct {
